@@ -17,6 +17,7 @@ mod regsim;
 mod rendersim;
 mod rng;
 mod sval;
+mod threadsim;
 mod writer;
 
 use common::{Outcome, ReplayFile, Stats, Violation};
@@ -31,11 +32,14 @@ pub enum Scn {
     Render(rendersim::RenderScenario),
     #[serde(rename = "regsim")]
     Reg(regsim::RegScenario),
+    #[serde(rename = "threadsim")]
+    Thread(threadsim::ThreadScenario),
 }
 
 fn generate(engine: &str, family: &str, prop: &str, tier: &str, seed: u64) -> Scn {
     match engine {
         "rendersim" => Scn::Render(rendersim::generate(seed, tier, prop)),
+        "threadsim" => Scn::Thread(threadsim::generate(seed, tier, prop)),
         "regsim" => Scn::Reg(match family {
             "general" => reggen::generate(seed, tier, prop),
             "graph" => graph::generate(seed, tier, prop),
@@ -56,6 +60,7 @@ fn execute(s: &Scn, stats: &mut Stats) -> Outcome {
     match s {
         Scn::Render(sc) => rendersim::execute(sc, stats),
         Scn::Reg(sc) => regsim::execute(sc, stats),
+        Scn::Thread(sc) => threadsim::execute(sc, stats),
     }
 }
 
@@ -63,6 +68,7 @@ fn shrink(s: &Scn) -> Vec<Scn> {
     match s {
         Scn::Render(sc) => rendersim::shrink_candidates(sc).into_iter().map(Scn::Render).collect(),
         Scn::Reg(sc) => regsim::shrink_candidates(sc).into_iter().map(Scn::Reg).collect(),
+        Scn::Thread(sc) => threadsim::shrink_candidates(sc).into_iter().map(Scn::Thread).collect(),
     }
 }
 
@@ -158,8 +164,18 @@ fn cmd_run(m: BTreeMap<String, String>) -> i32 {
                 let _ = writeln!(f, "{} {}", i, seed);
             }
             let scn = generate(&engine, &family, &prop, &tier, seed);
-            let outcome = execute(&scn, &mut stats);
+            let mut outcome = execute(&scn, &mut stats);
             runs += 1;
+            // threadsim: the replay scenario pins the recorded task sequence of the failing iteration
+            let mut scn = scn;
+            if let Scn::Thread(ts) = &mut scn {
+                if let Some(tr) = outcome.deferred.iter().find_map(|d| d.get("replay_trace").cloned()) {
+                    if let Ok(trace) = serde_json::from_value::<Vec<usize>>(tr) {
+                        ts.scheds = vec![threadsim::Sched::Replay { trace }];
+                    }
+                }
+                outcome.deferred.clear();
+            }
             if want_fp {
                 fps.push((i, outcome.fingerprint));
             }
@@ -279,7 +295,25 @@ fn cmd_minimize(path: &str, out: &str, budget_s: u64) -> i32 {
         if !still(&scn) {
             return (scn, 0);
         }
-        minimize::minimise(scn, still, shrink, std::time::Duration::from_secs(budget_s))
+        let (mut min, n) = minimize::minimise(scn, still, shrink, std::time::Duration::from_secs(budget_s));
+        // threadsim: pin the task sequence of the failing iteration of the minimised scenario
+        if let Scn::Thread(ts) = &mut min {
+            if !matches!(ts.scheds.first(), Some(threadsim::Sched::Replay { .. })) {
+                let mut st = Stats::default();
+                let o = threadsim::execute(ts, &mut st);
+                if let Some(tr) = o.deferred.iter().find_map(|d| d.get("replay_trace").cloned()) {
+                    if let Ok(trace) = serde_json::from_value::<Vec<usize>>(tr) {
+                        let mut pinned = ts.clone();
+                        pinned.scheds = vec![threadsim::Sched::Replay { trace }];
+                        let mut st2 = Stats::default();
+                        if threadsim::execute(&pinned, &mut st2).violations.iter().any(|v| same_class(v, &expect)) {
+                            *ts = pinned;
+                        }
+                    }
+                }
+            }
+        }
+        (min, n)
     });
     let mut rf2 = rf;
     rf2.scenario = serde_json::to_value(&min).unwrap();
@@ -336,7 +370,7 @@ fn main() {
             0
         }
         "engines" => {
-            println!("rendersim regsim");
+            println!("rendersim regsim threadsim");
             0
         }
         "dbg-gen" => {
